@@ -3,6 +3,7 @@
 package dblookupext
 
 import (
+	"bytes"
 	"fmt"
 	"sync"
 
@@ -196,25 +197,32 @@ func (hr *historyRepository) computeMiniblockHash(miniblock *block.MiniBlock) ([
 }
 
 func (hr *historyRepository) hasRecentlyInsertedMiniblockMetadata(blockHeaderHash []byte, miniblockHash []byte, epoch uint32) bool {
-	key := hr.buildKeyOfDeduplicationCacheForInsertMiniblockMetadata(blockHeaderHash, miniblockHash, epoch)
-	return hr.deduplicationCacheForInsertMiniblockMetadata.Has(key)
+	key := hr.buildKeyOfDeduplicationCacheForInsertMiniblockMetadata(miniblockHash, epoch)
+	value, ok := hr.deduplicationCacheForInsertMiniblockMetadata.Get(key)
+	if !ok {
+		return false
+	}
+
+	lastRecordedInBlock, ok := value.([]byte)
+	return ok && bytes.Equal(lastRecordedInBlock, blockHeaderHash)
 }
 
 // When building the key for the deduplication cache, we must take into account the epoch as well, in order to handle this case:
 // - miniblock M added in a fork at the end of epoch E,
 // - miniblock M re-added, on the canonical chain this time, in the next epoch E + 1.
 // This way we do not mistakenly ignore to update the "epochByHashIndex".
-// The hash of the containing block is part of the key as well, in order to handle this case:
+// The cache holds, for each key, the hash of the block in which the miniblock was recorded most recently, in order to handle these cases:
 // - miniblock M added in block B1, which is later dropped,
-// - miniblock M re-added in block B2 (same epoch), on the canonical chain.
+// - miniblock M re-added in block B2 (same epoch), on the canonical chain,
+// - possibly, the chain goes back to B1, and M is recorded in B1 once again.
 // This way the metadata of M points to the block that has been recorded most recently.
-func (hr *historyRepository) buildKeyOfDeduplicationCacheForInsertMiniblockMetadata(blockHeaderHash []byte, miniblockHash []byte, epoch uint32) []byte {
-	return []byte(fmt.Sprintf("%d_%x_%x", epoch, blockHeaderHash, miniblockHash))
+func (hr *historyRepository) buildKeyOfDeduplicationCacheForInsertMiniblockMetadata(miniblockHash []byte, epoch uint32) []byte {
+	return []byte(fmt.Sprintf("%d_%x", epoch, miniblockHash))
 }
 
 func (hr *historyRepository) markMiniblockMetadataAsRecentlyInserted(blockHeaderHash []byte, miniblockHash []byte, epoch uint32) {
-	key := hr.buildKeyOfDeduplicationCacheForInsertMiniblockMetadata(blockHeaderHash, miniblockHash, epoch)
-	_ = hr.deduplicationCacheForInsertMiniblockMetadata.Put(key, nil, 0)
+	key := hr.buildKeyOfDeduplicationCacheForInsertMiniblockMetadata(miniblockHash, epoch)
+	_ = hr.deduplicationCacheForInsertMiniblockMetadata.Put(key, blockHeaderHash, len(blockHeaderHash))
 }
 
 // GetMiniblockMetadataByTxHash will return a history transaction for the given hash from storage
